@@ -481,6 +481,11 @@ def r6(ctx, cfg):
                                 contains(y[2][1], lambda z: z[0] == "call" and z[1] == "prefixed_storage::prefixed_read" and is_param(z[2][0], "storage") and
                                          peel(z[2][1]) == ("item", "wasm::NAMESPACE_WASM")))
             ok = is_param(a[3], "code_id") and contains(inst, is_count)
+            if not ok and is_param(a[3], "code_id"):
+                # `let mut n = 0; for _ in CONTRACTS.range_raw(..) { n += 1 }`: the same count, written as a loop
+                src = q.counted_loop(P, F, f, inst)
+                ok = src is not None and not [n for n in q.chain_adapters(src) if n not in ("into_iter", "iter")] and \
+                    is_count(("call", "std::iter::Iterator::count", (src,)))
         if len(cc) == 1:
             cconds = q.dominating_conditions(P, f, cc[0][0])
             none_only = any(c[0] == "variant_in" and c[2] == ("None",) and contains(c[1], lambda x: x[0] == "param" and x[2] == "salt") for e, c in cconds) and \
